@@ -329,6 +329,7 @@ func main() {
 	pathKinds := map[string]int{}
 	groupClean := map[string]bool{}
 	groupSeen := map[string]bool{}
+	groupViolated := map[string]bool{}
 	coversHit := map[string]map[string]bool{}
 	var okCases []candidate
 	ifconv := 0
@@ -397,6 +398,7 @@ func main() {
 			}
 			if o.Violated > 0 {
 				groupClean[h] = false
+				groupViolated[h] = true
 			}
 			for _, v := range o.Violations {
 				vv := v
@@ -415,7 +417,7 @@ func main() {
 			continue
 		}
 		for _, c := range append([]string{"end"}, g.Covers...) {
-			if !coversHit[g.Harness][c] {
+			if !coversHit[g.Harness][c] && !groupViolated[g.Harness] {
 				incon = append(incon, fmt.Sprintf("%s: VACUOUS: cover point %q never reached", g.Harness, c))
 				groupClean[g.Harness] = false
 			}
@@ -819,7 +821,7 @@ func nativeReplay(pkgRel string, harnessDirs []string, cs []candidate) ([]replay
 		cb, _ := json.Marshal(cases)
 		cp := filepath.Join(tmp, "cases.json")
 		os.WriteFile(cp, cb, 0o644)
-		cmd := exec.Command("go", "test", "-vet=off", "-count=1", "-run", "^TestVerifReplay$", "-timeout", "600s", "-overlay", ovPath, "./"+pkgRel)
+		cmd := exec.Command("go", "test", "-v", "-vet=off", "-count=1", "-run", "^TestVerifReplay$", "-timeout", "600s", "-overlay", ovPath, "./"+pkgRel)
 		cmd.Dir = repo
 		cmd.Env = append(goEnv(), "VERIF_REPLAY="+cp)
 		out, _ := cmd.CombinedOutput()
